@@ -5,7 +5,11 @@ import PedVerif.Spec.Frozen
 namespace PedVerif.Frozen
 open PedVerif.Gen.Frozen
 
-/-! ## heap lemmas: `deepcopy` hands out fresh identities and preserves the value -/
+/-! ## heap lemmas: `deepcopy` hands out fresh identities and preserves the value
+
+The heap these lemmas quantify over has, besides lists / dicts / sets and tuples, **instances of plain user classes**
+(`Kind.obj`: mutable, hashable by identity, `==` is identity) and frozensets (`Kind.fset`), at any depth and in any
+combination; `mutIds` collects lists, dicts, sets *and* such instances. -/
 
 theorem deepcopy_fresh :
     (∀ (o : Obj) (n : Nat), n ≤ (deepcopy o n).2 ∧ ∀ i ∈ (deepcopy o n).1.mutIds, n ≤ i ∧ i < (deepcopy o n).2) ∧
@@ -29,9 +33,12 @@ theorem deepcopy_fresh :
     obtain ⟨h1, h2⟩ := ih
     refine ⟨by omega, ?_⟩
     intro i hi
-    simp only [Obj.mutIds, List.mem_cons] at hi
-    rcases hi with rfl | hi
-    · omega
+    simp only [Obj.mutIds] at hi
+    split at hi
+    · simp only [List.mem_cons] at hi
+      rcases hi with rfl | hi
+      · omega
+      · have := h2 i hi; omega
     · have := h2 i hi; omega
   · intro n; simp [deepcopyL, mutIdsL]
   · intro x xs n x' n1 hx xs' n2 hxs ih1 ih2
@@ -45,66 +52,141 @@ theorem deepcopy_fresh :
     · have := a2 i hi; omega
     · have := b2 i hi; omega
 
-
-theorem deepcopy_veq :
-    (∀ (o : Obj) (n : Nat), o.veq (deepcopy o n).1 = true) ∧
-    (∀ (os : List Obj) (n : Nat), veqL os (deepcopyL os n).1 = true) := by
+/-- the deep copy is the same value (`Obj.seq`: same shape, same kinds / classes, same atoms) — objects included -/
+theorem deepcopy_seq :
+    (∀ (o : Obj) (n : Nat), o.seq (deepcopy o n).1 = true) ∧
+    (∀ (os : List Obj) (n : Nat), seqL os (deepcopyL os n).1 = true) := by
   apply deepcopy.mutual_induct
-    (motive_1 := fun o n => o.veq (deepcopy o n).1 = true)
-    (motive_2 := fun os n => veqL os (deepcopyL os n).1 = true)
-  · intro a n; simp [deepcopy, Obj.veq]
+    (motive_1 := fun o n => o.seq (deepcopy o n).1 = true)
+    (motive_2 := fun os n => seqL os (deepcopyL os n).1 = true)
+  · intro a n; simp [deepcopy, Obj.seq]
   · intro id items n items' n' h hid ih
     simp only [deepcopy, h, hid, ↓reduceIte] at *
-    simpa [Obj.veq] using ih
+    simpa [Obj.seq] using ih
   · intro id items n items' n' h hid ih
     simp only [deepcopy, h, hid] at *
-    simpa [Obj.veq] using ih
+    simpa [Obj.seq] using ih
   · intro k id items n items' n' h ih
     simp only [deepcopy, h] at *
-    simpa [Obj.veq] using ih
-  · intro n; simp [deepcopyL, veqL]
+    simpa [Obj.seq] using ih
+  · intro n; simp [deepcopyL, seqL]
   · intro x xs n x' n1 hx xs' n2 hxs ih1 ih2
     simp only [deepcopyL, hx, hxs] at *
-    simp [veqL, ih1, ih2]
+    simp [seqL, ih1, ih2]
+
+/-- on values without instances of plain classes "the same value" implies Python's `==` -/
+theorem seq_veq_of_noObj :
+    (∀ o p : Obj, o.noObj = true → o.seq p = true → o.veq p = true) ∧
+    (∀ os ps : List Obj, noObjL os = true → seqL os ps = true → veqL os ps = true) := by
+  apply Obj.allIds.mutual_induct (motive_1 := fun o => ∀ p, o.noObj = true → o.seq p = true → o.veq p = true)
+    (motive_2 := fun os => ∀ ps, noObjL os = true → seqL os ps = true → veqL os ps = true)
+  · intro a p _ h; cases p <;> simp_all [Obj.seq, Obj.veq]
+  · intro id items ih p hn h
+    cases p <;> simp_all [Obj.seq, Obj.veq, Obj.noObj]
+  · intro k id items ih p hn h
+    cases p with
+    | box k' j ys =>
+      simp only [Obj.noObj, Bool.and_eq_true, bne_iff_ne, ne_eq] at hn
+      simp only [Obj.seq, Bool.and_eq_true, beq_iff_eq] at h
+      obtain ⟨rfl, h2⟩ := h
+      have hk : (k == Kind.obj) = false := by simpa using hn.1
+      simp [Obj.veq, hk, ih _ hn.2 h2]
+    | _ => simp [Obj.seq] at h
+  · intro ps _ h; cases ps <;> simp_all [seqL, veqL]
+  · intro x xs ih1 ih2 ps hn h
+    cases ps with
+    | nil => simp [seqL] at h
+    | cons y ys =>
+      simp only [noObjL, Bool.and_eq_true] at hn
+      simp only [seqL, Bool.and_eq_true] at h
+      simp [veqL, ih1 _ hn.1 h.1, ih2 _ hn.2 h.2]
+
+/-- Python's `==` between a value and its deep copy: the full statement, true on the guard "no instance of a plain class
+    inside" (`deepcopy_veq`), false beyond it (`deepcopy_veq_fails_on_object`: `object.__eq__` is identity, and the copy is
+    a new object) — which is why the copy contract is stated with `Obj.seq` -/
+def deepcopy_veq_full : Prop := ∀ (o : Obj) (n : Nat), o.veq (deepcopy o n).1 = true
+
+theorem deepcopy_veq (o : Obj) (n : Nat) (h : o.noObj = true) : o.veq (deepcopy o n).1 = true :=
+  seq_veq_of_noObj.1 o _ h (deepcopy_seq.1 o n)
+
+theorem deepcopy_veq_fails_on_object : ¬ deepcopy_veq_full := by
+  intro h
+  have := h (.box .obj 0 [.atom (.int 1)]) 5
+  revert this; decide
+
+example : (Obj.box .list 1 [.tup 2 [.box .set 3 []]]).noObj = true := by decide
 
 /-- **heap lemma**: under the allocator invariant (every live identity of the value is below `n`) the deep copy shares no
-    mutable node with the original and is structurally equal to it — for values of any size and nesting -/
+    mutable node — list, dict, set or instance of a plain class, directly or inside tuples / frozensets / other nodes — with
+    the original and is the same value — for values of any size and nesting -/
 theorem deepcopy_no_shared_mutable (o : Obj) (n : Nat) (hwf : ∀ i ∈ o.mutIds, i < n) :
-    (∀ i ∈ (deepcopy o n).1.mutIds, i ∉ o.mutIds) ∧ o.veq (deepcopy o n).1 = true := by
-  refine ⟨?_, deepcopy_veq.1 o n⟩
+    (∀ i ∈ (deepcopy o n).1.mutIds, i ∉ o.mutIds) ∧ o.seq (deepcopy o n).1 = true := by
+  refine ⟨?_, deepcopy_seq.1 o n⟩
   intro i hi hmem
   have := (deepcopy_fresh.1 o n).2 i hi
   have := hwf i hmem
   omega
 
+/-- an instance of a plain class holding a list, inside a tuple inside a frozenset inside a dict value: hashable members,
+    yet every object and list of the copy is new -/
+def exObjVal : Obj :=
+  .box .dict 1 [.atom (.str [107]), .box .fset 2 [.tup 3 [.box .obj 4 [.atom (.int 1), .box .list 5 []]]], .box .obj 6 []]
+
+example : exObjVal.mutIds = [1, 4, 5, 6] ∧ (deepcopy exObjVal 10).1.mutIds = [10, 12, 13, 15] := by decide
+example : ∀ i ∈ exObjVal.mutIds, i < 10 := by decide
+example : (Obj.tup 3 [.box .obj 4 [.box .list 5 []]]).hashable = true ∧ (Obj.tup 3 [.box .obj 4 [.box .list 5 []]]).mutIds = [4, 5] := by decide
+
+theorem seq_refl : (∀ o : Obj, o.seq o = true) ∧ (∀ os : List Obj, seqL os os = true) := by
+  apply Obj.allIds.mutual_induct (motive_1 := fun o => o.seq o = true) (motive_2 := fun os => seqL os os = true)
+  · intro a; simp [Obj.seq]
+  · intro id items ih; simpa [Obj.seq] using ih
+  · intro k id items ih; simpa [Obj.seq] using ih
+  · simp [seqL]
+  · intro x xs ih1 ih2; simp [seqL, ih1, ih2]
+
+theorem seq_symm : (∀ o p : Obj, o.seq p = p.seq o) ∧ (∀ os ps : List Obj, seqL os ps = seqL ps os) := by
+  apply Obj.allIds.mutual_induct (motive_1 := fun o => ∀ p, o.seq p = p.seq o) (motive_2 := fun os => ∀ ps, seqL os ps = seqL ps os)
+  · intro a p; cases p <;> simp [Obj.seq]; exact Bool.beq_comm
+  · intro id items ih p; cases p <;> simp [Obj.seq, ih]
+  · intro k id items ih p; cases p <;> simp [Obj.seq, ih]
+    rename_i k' _ _; rw [show (k == k') = (k' == k) from Bool.beq_comm]
+  · intro ps; cases ps <;> simp [seqL]
+  · intro x xs ih1 ih2 ps; cases ps <;> simp [seqL, ih1, ih2]
+
+theorem seq_trans : (∀ o p q : Obj, o.seq p = true → p.seq q = true → o.seq q = true) ∧
+    (∀ os ps qs : List Obj, seqL os ps = true → seqL ps qs = true → seqL os qs = true) := by
+  apply Obj.allIds.mutual_induct (motive_1 := fun o => ∀ p q, o.seq p = true → p.seq q = true → o.seq q = true)
+    (motive_2 := fun os => ∀ ps qs, seqL os ps = true → seqL ps qs = true → seqL os qs = true)
+  · intro a p q; cases p <;> cases q <;> simp [Obj.seq]; intro h1 h2; exact h1.trans h2
+  · intro id items ih p q; cases p <;> cases q <;> simp [Obj.seq]; exact ih _ _
+  · intro k id items ih p q; cases p <;> cases q <;> simp [Obj.seq]
+    intro h1 h2 h3 h4; exact ⟨h1.trans h3, ih _ _ h2 h4⟩
+  · intro ps qs; cases ps <;> cases qs <;> simp [seqL]
+  · intro x xs ih1 ih2 ps qs; cases ps <;> cases qs <;> simp [seqL]
+    intro h1 h2 h3 h4; exact ⟨ih1 _ _ h1 h3, ih2 _ _ h2 h4⟩
+
+/-- Python's `==` is reflexive (an object is equal to itself) and symmetric on this value universe -/
 theorem veq_refl : (∀ o : Obj, o.veq o = true) ∧ (∀ os : List Obj, veqL os os = true) := by
-  apply Obj.mutIds.mutual_induct (motive_1 := fun o => o.veq o = true) (motive_2 := fun os => veqL os os = true)
+  apply Obj.allIds.mutual_induct (motive_1 := fun o => o.veq o = true) (motive_2 := fun os => veqL os os = true)
   · intro a; simp [Obj.veq]
   · intro id items ih; simpa [Obj.veq] using ih
-  · intro k id items ih; simpa [Obj.veq] using ih
+  · intro k id items ih; simp [Obj.veq, ih]
   · simp [veqL]
   · intro x xs ih1 ih2; simp [veqL, ih1, ih2]
 
 theorem veq_symm : (∀ o p : Obj, o.veq p = p.veq o) ∧ (∀ os ps : List Obj, veqL os ps = veqL ps os) := by
-  apply Obj.mutIds.mutual_induct (motive_1 := fun o => ∀ p, o.veq p = p.veq o) (motive_2 := fun os => ∀ ps, veqL os ps = veqL ps os)
+  apply Obj.allIds.mutual_induct (motive_1 := fun o => ∀ p, o.veq p = p.veq o) (motive_2 := fun os => ∀ ps, veqL os ps = veqL ps os)
   · intro a p; cases p <;> simp [Obj.veq]; exact Bool.beq_comm
   · intro id items ih p; cases p <;> simp [Obj.veq, ih]
-  · intro k id items ih p; cases p <;> simp [Obj.veq, ih]
-    rename_i k' _ _; rw [show (k == k') = (k' == k) from Bool.beq_comm]
+  · intro k id items ih p
+    cases p with
+    | box k' j ys =>
+      simp only [Obj.veq, ih ys]
+      rw [Bool.or_comm (k == Kind.obj), show (k == k') = (k' == k) from Bool.beq_comm, show (id == j) = (j == id) from Bool.beq_comm,
+        show (k.eqKey == k'.eqKey) = (k'.eqKey == k.eqKey) from Bool.beq_comm]
+    | _ => simp [Obj.veq]
   · intro ps; cases ps <;> simp [veqL]
   · intro x xs ih1 ih2 ps; cases ps <;> simp [veqL, ih1, ih2]
-
-theorem veq_trans : (∀ o p q : Obj, o.veq p = true → p.veq q = true → o.veq q = true) ∧
-    (∀ os ps qs : List Obj, veqL os ps = true → veqL ps qs = true → veqL os qs = true) := by
-  apply Obj.mutIds.mutual_induct (motive_1 := fun o => ∀ p q, o.veq p = true → p.veq q = true → o.veq q = true)
-    (motive_2 := fun os => ∀ ps qs, veqL os ps = true → veqL ps qs = true → veqL os qs = true)
-  · intro a p q; cases p <;> cases q <;> simp [Obj.veq]; intro h1 h2; exact h1.trans h2
-  · intro id items ih p q; cases p <;> cases q <;> simp [Obj.veq]; exact ih _ _
-  · intro k id items ih p q; cases p <;> cases q <;> simp [Obj.veq]
-    intro h1 h2 h3 h4; exact ⟨h1.trans h3, ih _ _ h2 h4⟩
-  · intro ps qs; cases ps <;> cases qs <;> simp [veqL]
-  · intro x xs ih1 ih2 ps qs; cases ps <;> cases qs <;> simp [veqL]
-    intro h1 h2 h3 h4; exact ⟨ih1 _ _ h1 h3, ih2 _ _ h2 h4⟩
 
 
 /-! ## what the decorator hands to `dataclass(...)` (generated definitions) -/
@@ -308,7 +390,7 @@ def DfltPost (d : Dflt) (r : Option Obj) : Prop :=
   match d with
   | .none => True
   | .value o => r = some o
-  | .factory t => ∃ x, r = some x ∧ t.veq x = true
+  | .factory t => ∃ x, r = some x ∧ t.seq x = true
 
 /-- the attribute `r` that `__init__` leaves for field `f` when called with the bindings `bound` -/
 def FieldPostV (f : FieldR) (bound : List (Name × Obj)) (r : Option Obj) : Prop :=
@@ -333,14 +415,14 @@ theorem fieldValue_spec (f : FieldR) (bound : List (Name × Obj)) (n n1 : Nat) (
       | value o => simp only [hd] at h; cases h; exact ⟨Nat.le_refl _, by simp [DfltPost], by simp [hasDefault, hd]⟩
       | factory t =>
         simp only [hd] at h; cases h
-        exact ⟨(deepcopy_fresh.1 t n).1, ⟨_, rfl, deepcopy_veq.1 t n⟩, by simp [hasDefault, hd]⟩
+        exact ⟨(deepcopy_fresh.1 t n).1, ⟨_, rfl, deepcopy_seq.1 t n⟩, by simp [hasDefault, hd]⟩
   · simp only [hi] at h ⊢
     cases hd : f.dflt with
     | none => simp only [hd] at h; cases h; exact ⟨Nat.le_refl _, by simp [DfltPost]⟩
     | value o => simp only [hd] at h; cases h; exact ⟨Nat.le_refl _, by simp [DfltPost]⟩
     | factory t =>
       simp only [hd] at h; cases h
-      exact ⟨(deepcopy_fresh.1 t n).1, ⟨_, rfl, deepcopy_veq.1 t n⟩⟩
+      exact ⟨(deepcopy_fresh.1 t n).1, ⟨_, rfl, deepcopy_seq.1 t n⟩⟩
 
 theorem initFields_spec : ∀ (fs : List FieldR) (bound : List (Name × Obj)) (n n' : Nat) (vals : List (Name × Obj)),
     (fs.map (·.name)).Nodup → initFields fs bound n = .ok (vals, n') →
@@ -631,17 +713,17 @@ theorem construct_instOk (c : Cls) (pos : List Obj) (kw : List (Name × Obj)) (n
         · intro hinit
           simpa [hinit] using hp
 
-theorem dfltPost_veq (f : FieldR) (a b : Option Obj) (hd : hasDefault f = true)
-    (ha : DfltPost f.dflt a) (hb : DfltPost f.dflt b) : ∃ s r, a = some s ∧ b = some r ∧ s.veq r = true := by
+theorem dfltPost_seq (f : FieldR) (a b : Option Obj) (hd : hasDefault f = true)
+    (ha : DfltPost f.dflt a) (hb : DfltPost f.dflt b) : ∃ s r, a = some s ∧ b = some r ∧ s.seq r = true := by
   unfold hasDefault at hd
   cases hdf : f.dflt with
   | none => simp [hdf] at hd
-  | value o => rw [hdf] at ha hb; exact ⟨o, o, ha, hb, veq_refl.1 o⟩
+  | value o => rw [hdf] at ha hb; exact ⟨o, o, ha, hb, seq_refl.1 o⟩
   | factory t =>
     rw [hdf] at ha hb
     obtain ⟨x, hx, hxe⟩ := ha
     obtain ⟨y, hy, hye⟩ := hb
-    exact ⟨x, y, hx, hy, veq_trans.1 x t y (by rw [veq_symm.1]; exact hxe) hye⟩
+    exact ⟨x, y, hx, hy, seq_trans.1 x t y (by rw [seq_symm.1]; exact hxe) hye⟩
 
 theorem kwValid_mem (c : Cls) (kw : List (Name × Obj)) (h : specKwValid c kw = true) :
     ∀ kv ∈ kw, kv.1 ∈ initNames (fieldsOf c) := by
@@ -715,7 +797,7 @@ theorem copy_with_meets_spec (self : Inst) (kw : List (Name × Obj)) (n : Nat)
         simp only [hi', Bool.false_eq_true, ↓reduceIte] at hp
         simp only [hi', Bool.not_false, ↓reduceIte]
         have hd := wf_initFalse_default _ hwf f hf hi'
-        exact dfltPost_veq f _ _ hd ((hself f hf).2 hi') hp
+        exact dfltPost_seq f _ _ hd ((hself f hf).2 hi') hp
   · simp [selfAfterOf, frozen_source_shape.2.2.2.2.2.2.2]
 
 
@@ -840,7 +922,7 @@ theorem deep_copy_with_meets_spec (self : Inst) (kw : List (Name × Obj)) (n : N
         have hc : (mergeDict cur kw).lookup f.name = some (deepcopy s m0).1 := by rw [mergeDict_lookup, hl, h3]; rfl
         simp only [hi, ↓reduceIte, hc] at hp
         simp only [hi, Bool.not_true, Bool.false_eq_true, ↓reduceIte]
-        refine ⟨s, (deepcopy s m0).1, h1, hp, deepcopy_veq.1 s m0, ?_⟩
+        refine ⟨s, (deepcopy s m0).1, h1, hp, deepcopy_seq.1 s m0, ?_⟩
         intro i hi1 hi2
         have := (deepcopy_fresh.1 s m0).2 i hi1
         have := hlive i hi2
@@ -849,7 +931,7 @@ theorem deep_copy_with_meets_spec (self : Inst) (kw : List (Name × Obj)) (n : N
         simp only [hi', Bool.false_eq_true, ↓reduceIte] at hp
         simp only [hi', Bool.not_false, ↓reduceIte]
         have hd := wf_initFalse_default _ hwf f hf hi'
-        exact dfltPost_veq f _ _ hd ((hself f hf).2 hi') hp
+        exact dfltPost_seq f _ _ hd ((hself f hf).2 hi') hp
   · simp [selfAfterOf, frozen_source_shape.2.2.2.2.2.2.2]
 
 
@@ -873,7 +955,7 @@ theorem instOk_allSet (a : Inst) (hwf : wfCls a.cls = true) (ha : InstOk a) :
   by_cases hi : f.init = true
   · exact (ha f hf).1 hi
   · have hi' : f.init = false := by simpa using hi
-    obtain ⟨s, r, h1, _, _⟩ := dfltPost_veq f _ _ (wf_initFalse_default _ hwf f hf hi') ((ha f hf).2 hi') ((ha f hf).2 hi')
+    obtain ⟨s, r, h1, _, _⟩ := dfltPost_seq f _ _ (wf_initFalse_default _ hwf f hf hi') ((ha f hf).2 hi') ((ha f hf).2 hi')
     simp [h1]
 
 theorem tupleOf_cmp (a : Inst) (hwf : wfCls a.cls = true) (ha : InstOk a) :
@@ -917,12 +999,14 @@ theorem wf_root (c : Cls) (h : wfCls c = true) : rootDecorated c = true := by
   simp only [wfCls, Bool.and_eq_true] at h
   exact h.1.1.1.1.1
 
-/-- **C11, hash.** `hash(a)` is the hash of the field tuple; it exists iff that tuple is hashable (no mutable node inside) -/
+/-- **C11, hash.** `hash(a)` is the hash of the field tuple; it exists iff that tuple is hashable (no list / dict / set,
+    directly or inside tuples; an instance of a plain class is hashable although it is mutable) -/
 theorem hash_is_tuple_hash (a : Inst) (hwf : wfCls a.cls = true) (ha : InstOk a) :
     hashOp a = if specHashable a = true then .ok (specTuple a) else .error .typeError := by
   obtain ⟨l, rest, h1, _, _⟩ := decoratedPart_of_root a.cls (wf_root _ hwf)
   have hfr : isFrozenCls a.cls = true := by simp [isFrozenCls, h1, layer_frozen]
-  simp [hashOp, hfr, tupleOf_cmp a hwf ha, specHashable]
+  simp only [hashOp, hfr, tupleOf_cmp a hwf ha, specHashable, Bool.not_true, Bool.false_eq_true, ↓reduceIte]
+  split <;> simp_all
 
 /-- equal instances hash equal tuples -/
 theorem eq_implies_same_hash_key (a b : Inst) (hwfa : wfCls a.cls = true) (hwfb : wfCls b.cls = true) (ha : InstOk a) (hb : InstOk b)
@@ -1063,14 +1147,15 @@ theorem copy_with_original_unchanged (self : Inst) (kw : List (Name × Obj)) (n 
   obtain ⟨out, h1, _, h2, _, _⟩ := copy_with_meets_spec self kw n hwf hself hkw
   exact ⟨out, h1, h2⟩
 
-/-- same class; replaced fields are the objects passed; the others are structurally equal to the original's -/
+/-- same class; replaced fields are the objects passed; the others are the same value as the original's (and `==` to it
+    wherever no instance of a plain class is involved: `deep_copy_with_fields_python_eq`) -/
 theorem deep_copy_with_fields (self : Inst) (kw : List (Name × Obj)) (n : Nat)
     (hwf : wfCls self.cls = true) (hself : InstOk self) (hkw : specKwValid self.cls kw = true) (hlive : ∀ i ∈ self.mutIds, i < n) :
     ∃ out, deepCopyWith self kw n = .ok out ∧ out.result.cls = self.cls ∧
       ∀ f ∈ fieldsOf self.cls,
         match kw.lookup f.name with
         | some v => out.result.fields.lookup f.name = some v
-        | none => ∃ s r, self.fields.lookup f.name = some s ∧ out.result.fields.lookup f.name = some r ∧ s.veq r = true := by
+        | none => ∃ s r, self.fields.lookup f.name = some s ∧ out.result.fields.lookup f.name = some r ∧ s.seq r = true := by
   obtain ⟨out, h1, ⟨hc, hf⟩, _, _, _⟩ := deep_copy_with_meets_spec self kw n hwf hself hkw hlive
   refine ⟨out, h1, hc, ?_⟩
   intro f hfm
@@ -1087,13 +1172,15 @@ theorem deep_copy_with_fields (self : Inst) (kw : List (Name × Obj)) (n : Nat)
       simpa [hi'] using this
 
 /-- **∀ un-replaced init field: mutableIds(result.f) ∩ mutableIds(self.f) = ∅ ∧ structEq** — and in fact disjoint from every
-    mutable node of the original instance -/
+    mutable node of the original instance, where the mutable nodes are the lists, dicts, sets **and instances of plain
+    classes** at any depth (also inside tuples and frozensets, where hashability says nothing about mutability);
+    Python's `==` holds too wherever the original value holds no instance of a class with identity equality -/
 theorem deep_copy_no_shared_mutable (self : Inst) (kw : List (Name × Obj)) (n : Nat)
     (hwf : wfCls self.cls = true) (hself : InstOk self) (hkw : specKwValid self.cls kw = true) (hlive : ∀ i ∈ self.mutIds, i < n) :
     ∃ out, deepCopyWith self kw n = .ok out ∧
       ∀ f ∈ fieldsOf self.cls, f.init = true → kw.lookup f.name = none →
-        ∃ s r, self.fields.lookup f.name = some s ∧ out.result.fields.lookup f.name = some r ∧ s.veq r = true ∧
-          (∀ i ∈ r.mutIds, i ∉ s.mutIds) ∧ (∀ i ∈ r.mutIds, i ∉ self.mutIds) := by
+        ∃ s r, self.fields.lookup f.name = some s ∧ out.result.fields.lookup f.name = some r ∧ s.seq r = true ∧
+          (∀ i ∈ r.mutIds, i ∉ s.mutIds) ∧ (∀ i ∈ r.mutIds, i ∉ self.mutIds) ∧ (s.noObj = true → s.veq r = true) := by
   obtain ⟨out, h1, ⟨_, hf⟩, _, _, _⟩ := deep_copy_with_meets_spec self kw n hwf hself hkw hlive
   refine ⟨out, h1, ?_⟩
   intro f hfm hi hl
@@ -1101,7 +1188,7 @@ theorem deep_copy_no_shared_mutable (self : Inst) (kw : List (Name × Obj)) (n :
   unfold FieldMeets specExpect at this
   simp only [hl, Option.isSome_none, Bool.false_eq_true, ↓reduceIte, hi, Bool.not_true] at this
   obtain ⟨s, r, a, b, c, d⟩ := this
-  refine ⟨s, r, a, b, c, ?_, d⟩
+  refine ⟨s, r, a, b, c, ?_, d, fun hn => seq_veq_of_noObj.1 s r hn c⟩
   intro i hir his
   exact d i hir (by simp only [Inst.mutIds, List.mem_append]; exact Or.inl (mutIds_field_subset _ _ _ a i his))
 
@@ -1184,14 +1271,17 @@ theorem deep_copy_with_rejects_bad_kw (self : Inst) (kw : List (Name × Obj)) (n
 
 theorem mutIds_subset_allIds : (∀ (o : Obj) (i : Nat), i ∈ o.mutIds → i ∈ o.allIds) ∧
     (∀ (os : List Obj) (i : Nat), i ∈ mutIdsL os → i ∈ allIdsL os) := by
-  apply Obj.mutIds.mutual_induct (motive_1 := fun o => ∀ i, i ∈ o.mutIds → i ∈ o.allIds)
+  apply Obj.allIds.mutual_induct (motive_1 := fun o => ∀ i, i ∈ o.mutIds → i ∈ o.allIds)
     (motive_2 := fun os => ∀ i, i ∈ mutIdsL os → i ∈ allIdsL os)
   · intro a i h; simp [Obj.mutIds] at h
   · intro id items ih i h; simp only [Obj.mutIds] at h; simp [Obj.allIds, ih i h]
   · intro k id items ih i h
-    simp only [Obj.mutIds, List.mem_cons] at h
-    rcases h with rfl | h
-    · simp [Obj.allIds]
+    simp only [Obj.mutIds] at h
+    split at h
+    · simp only [List.mem_cons] at h
+      rcases h with rfl | h
+      · simp [Obj.allIds]
+      · simp [Obj.allIds, ih i h]
     · simp [Obj.allIds, ih i h]
   · intro i h; simp [mutIdsL] at h
   · intro x xs ih1 ih2 i h
@@ -1528,8 +1618,33 @@ example : fieldMutIds (runCopy (.build false true .typeSelf true) exInst [] 30) 
 example : fieldMutIds (runCopy (.build true true .typeSelf false) exInst [(1, .atom .none)] 30) 1 = some [35, 36] := by decide  -- kwargs lose
 example : fieldMutIds (runCopy (.replace true) exInst [] 30) 0 = some [30, 31, 32, 33] := by decide       -- "shallow" copy does not share
 
+/-- the same with hashable-but-mutable field values: `Job(counter=Counter(1), workers=(Counter(10), Counter(20)))`-like instance —
+    field 0 an instance of a plain class holding a list, field 1 a tuple of two such instances inside a frozenset-bearing tuple -/
+def exObjInst : Inst :=
+  ⟨[exB, exA], [(0, .box .obj 40 [.atom (.int 1), .box .list 41 []]),
+                (1, .tup 42 [.box .obj 43 [.atom (.int 10)], .box .fset 44 [.box .obj 45 [.atom (.int 20)]]]), (2, .atom (.int 5))], []⟩
+
+theorem exObjInst_constructed : construct [exB, exA] [] [(0, .box .obj 40 [.atom (.int 1), .box .list 41 []]),
+    (1, .tup 42 [.box .obj 43 [.atom (.int 10)], .box .fset 44 [.box .obj 45 [.atom (.int 20)]]])] 50 = .ok ⟨exObjInst, 50, []⟩ := by rfl
+example : InstOk exObjInst := (construct_instOk _ _ _ _ _ (by decide) exObjInst_constructed).1
+example : exObjInst.mutIds = [40, 41, 43, 45] ∧ ∀ i ∈ exObjInst.mutIds, i < 50 := by decide
+example : hashableL (exObjInst.fields.map (·.2)) = true := by decide          -- every field value is hashable …
+-- … and still deep_copy_with re-creates every object (and the list inside), while copy_with shares them
+example : fieldMutIds (deepCopyWith exObjInst [] 50) 0 = some [50, 51] ∧ fieldMutIds (deepCopyWith exObjInst [] 50) 1 = some [52, 54] := by decide
+example : fieldMutIds (copyWith exObjInst [] 50) 0 = some [40, 41] ∧ fieldMutIds (copyWith exObjInst [] 50) 1 = some [43, 45] := by decide
+-- a body that skips `deepcopy` (as a "hashable ⇒ immutable" shortcut would for these values) shares all of them
+example : fieldMutIds (runCopy (.build false true .typeSelf true) exObjInst [] 50) 1 = some [43, 45] := by decide
+-- Python's `==` between original and deep copy is False on such a field (identity equality), "the same value" holds
+example : (match deepCopyWith exObjInst [] 50 with
+    | .ok o => (o.result.fields.lookup 0).map (fun r => ((Obj.box .obj 40 [.atom (.int 1), .box .list 41 []]).veq r, (Obj.box .obj 40 [.atom (.int 1), .box .list 41 []]).seq r))
+    | .error _ => none) = some (false, true) := by decide
+
 -- order / eq / hash on the example
 example : declaredOrder exInst.cls = true := by decide
+example : specHashable exObjInst = true ∧ (ltOp exObjInst exObjInst).toOption = some false := by decide
+example : Obj.veq (.box .set 1 [.atom (.int 1)]) (.box .fset 2 [.atom (.int 1)]) = true ∧
+    Obj.vlt (.box .fset 1 [.atom (.int 1)]) (.box .set 2 [.atom (.int 1), .atom (.int 2)]) = some true ∧
+    Obj.vlt (.box .obj 1 []) (.box .obj 2 []) = none ∧ Obj.veq (.box .obj 1 []) (.box .obj 2 []) = false := by decide
 example : specHashable exInst = false ∧ specHashable { exInst with fields := [(0, .atom (.int 1)), (1, .atom .none), (2, .atom (.int 5))] } = true := by decide
 example : lexLt [.atom (.int 1), .box .list 1 [.atom (.int 2)]] [.atom (.int 1), .box .list 2 [.atom (.int 2), .atom (.int 0)]] = some true := by decide
 example : lexLt [.atom (.int 1)] [.atom .none] = none := by decide
